@@ -4,8 +4,8 @@ from checks.engine_common import run_engine
 META = {
     "property_id": "C02",
     "technique": "Coq proof over a Gallina model of the build engine + history correspondence with fresh-process builds",
-    "level_text": 'Theorems: noop_rebuild (after a fully successful build a rebuild in a fresh process executes nothing, everything is reported up to date, state unchanged up to sim), irrelevant_edit (trees that agree on what the closure mentions build it identically), builds_depend_only_on_live_state, load_refresh_invisible. Correspondence + oracle: rebuilds of unchanged trees, same-content rewrites, cosmetic edits, other-package edits, edits inside source directories execute exactly what the model predicts.',
-    "level_note": "Trusted: as C01. Edits that add or remove statements inside a BUILD file shift bytecode indices and do re-run its targets: outside the property's guarantees, modelled as environment changes (file shape + position).",
+    "level_text": 'Theorems: noop_rebuild (after a fully successful build a rebuild in a fresh process executes nothing, everything is reported up to date, state unchanged up to sim), irrelevant_edit (trees that agree on what the closure mentions build it identically), builds_depend_only_on_live_state, load_refresh_invisible. Correspondence + oracle: rebuilds of unchanged trees, same-content rewrites, cosmetic edits, other-package edits, edits inside source directories execute exactly what the model predicts; direct oracle: after a no-op rebuild, comment/whitespace edits of the function files of the closure (recursive and mutually recursive helpers below them move) plus same-content rewrites and timestamp changes of its sources execute nothing.',
+    "level_note": "Trusted: as C01. Functions sharing a module file shift each other's bytecode indices when one is added or removed (outside the property's guarantees); the harness gives every function its own module file so that the semantic environment key is exact.",
     "design_ref": "DESIGN.md §6 C02",
 }
 
